@@ -258,20 +258,32 @@ def expand_locals_in(e, f):
 
 
 def r14_4(repo: Repo) -> RuleResult:
-    rr = RuleResult("R14.4", "tree: the projector zeroes exactly the mask diagonal entry and is applied on both sides", floor=1)
+    """Tree vectorizer: the mask's row and column are removed from the square count matrix - by a two-sided projector
+    P.X.P with P = I except P[mask, mask] = 0, or by clearing row and column directly - and this happens *before* the
+    orientation handling: after `hstack([X^T, X])` the mask has two columns (m and n + m) and clearing index m alone
+    leaves the 'post_' one standing."""
+    rr = RuleResult("R14.4", "tree: the mask's row and column are removed from the square matrix, before the orientation blocks are laid out", floor=2)
     f = repo.func("vectorizers/tree_token_cooccurrence.py", "sequence_tree_skip_grams")
-    blocks = [n for n in walk_no_nested(f.node) if isinstance(n, ast.If) and "is not None" in norm(n.test) and "kernel_args[0]" in norm(n.test)]
+    sd = single_defs_in(f)
+    blocks = []
+    for n in f.node.body:
+        if isinstance(n, ast.If) and isinstance(n.test, ast.Compare) and len(n.test.ops) == 1 and isinstance(n.test.ops[0], ast.IsNot) \
+                and norm(n.test.comparators[0]) == "None":
+            op = n.test.left
+            full = norm(sd.get(norm(op), op))
+            if full == "kernel_args[0]":
+                blocks.append(n)
     if len(blocks) != 1:
         raise AnalysisError("R14.4: nullify-mask block not found in sequence_tree_skip_grams")
     b = blocks[0]
+    mask_names = {"kernel_args[0]"} | {k for k, v in sd.items() if norm(v) == "kernel_args[0]"}
     eye = [n for n in b.body if isinstance(n, ast.Assign) and isinstance(n.targets[0], ast.Name) and "scipy.sparse.eye" in norm(n.value)]
     ok = False
-    # the operand tested `is not None` is the mask index
-    guarded_operand = norm(expand_locals_in(b.test.left, f)) if isinstance(b.test, ast.Compare) else "?"
+    how = ""
     if eye:
         P = eye[0].targets[0].id
         zero = [n for n in b.body if isinstance(n, ast.Assign) and isinstance(n.targets[0], ast.Subscript) and norm(n.targets[0].value).startswith(P + ".")
-                and guarded_operand in norm(expand_locals_in(n.targets[0].slice, f)) and norm(n.value) in ("0", "0.0")]
+                and any(m in norm(n.targets[0].slice) for m in mask_names) and norm(n.value) in ("0", "0.0")]
         both = []
         for n in b.body:
             if isinstance(n, ast.Assign) and isinstance(n.targets[0], ast.Name):
@@ -280,11 +292,40 @@ def r14_4(repo: Repo) -> RuleResult:
                 if v in ("%s.dot(%s).dot(%s)" % (P, X, P), "(%s.dot(%s)).dot(%s)" % (P, X, P), "%s@%s@%s" % (P, X, P), "%s.dot(%s.dot(%s))" % (P, X, P)):
                     both.append(n)
         ok = bool(zero and both and eye[0].lineno < zero[0].lineno < both[0].lineno)
-    if ok:
-        rr.ok(f, "mask projector", "P = I with P[mask, mask] = 0; counts = P . counts . P", b.lineno)
+        how = "P = I with P[mask, mask] = 0; counts = P . counts . P"
     else:
-        rr.bad(f, "mask projector", "the identity-minus-mask projector is not built / not applied on both sides", b.lineno)
+        # direct clearing: X[mask, :] = 0 and X[:, mask] = 0
+        rows = cols = False
+        for n in b.body:
+            if isinstance(n, ast.Assign) and isinstance(n.targets[0], ast.Subscript) and isinstance(n.targets[0].slice, ast.Tuple) \
+                    and len(n.targets[0].slice.elts) == 2 and norm(n.value) in ("0", "0.0"):
+                a0, a1 = n.targets[0].slice.elts
+                if norm(a0) in mask_names and isinstance(a1, ast.Slice):
+                    rows = True
+                if norm(a1) in mask_names and isinstance(a0, ast.Slice):
+                    cols = True
+        ok = rows and cols
+        how = "row and column of the mask cleared directly"
+    if ok:
+        rr.ok(f, "mask removal", how, b.lineno)
+    else:
+        rr.bad(f, "mask removal", "the mask's row and column are not both removed (neither a two-sided projector nor a row and a column clear)", b.lineno)
+    # order: before the orientation dispatch
+    orient = [n for n in f.node.body if isinstance(n, ast.If) and isinstance(n.test, ast.Compare) and "window_orientation" in norm(n.test.left)]
+    if not orient:
+        raise AnalysisError("R14.4: orientation dispatch of sequence_tree_skip_grams not found")
+    if f.node.body.index(b) < f.node.body.index(orient[0]):
+        rr.ok(f, "mask removal before orientation", "applied to the square matrix, before transposes / hstack", b.lineno)
+    else:
+        rr.bad(f, "mask removal before orientation", "the mask is removed after the orientation blocks are laid out: for 'directional' the matrix is "
+               "[X^T, X] with the mask at columns m and n + m, and index m alone is cleared - the 'post_' mask column keeps its counts", b.lineno)
     return rr
+
+
+def single_defs_in(f: Func):
+    from .common import single_defs
+
+    return single_defs(f)
 
 
 def r14_5(repo: Repo) -> RuleResult:
